@@ -399,6 +399,78 @@ Section Tags.
   Qed.
 End Tags.
 
+(** ** Fresh nonces over a history of reads *)
+Lemma nonces_fresh_from_spec ns : forall used,
+  nonces_fresh_from used ns = true ->
+  Forall (fun n => length n = 32%nat) ns /\ NoDup ns /\ (forall n, In n ns -> ~ In n used).
+Proof.
+  induction ns as [|n t IH]; intros used H.
+  - repeat split; [constructor | constructor | intros n []].
+  - cbn [nonces_fresh_from] in H. apply andb_true_iff in H. destruct H as [H Ht].
+    apply andb_true_iff in H. destruct H as [Hl Hu].
+    apply Nat.eqb_eq in Hl. apply negb_true_iff in Hu.
+    destruct (IH _ Ht) as (F & D & U).
+    assert (Hn : ~ In n used).
+    { intros I. assert (E : existsb (beq n) used = true).
+      { apply existsb_exists. exists n. split; [exact I | apply bytes_beq_refl]. }
+      rewrite E in Hu. discriminate Hu. }
+    repeat split.
+    + constructor; assumption.
+    + constructor; [|exact D]. intros I. apply (U n I). left. reflexivity.
+    + intros m [<- | I]; [exact Hn|]. intros Iu. apply (U m I). right. exact Iu.
+Qed.
+
+Lemma nonces_fresh_distinct ns i j ni nj :
+  nonces_fresh ns = true -> nth_error ns i = Some ni -> nth_error ns j = Some nj -> i <> j ->
+  length ni = 32%nat /\ length nj = 32%nat /\ ni <> nj.
+Proof.
+  intros H Hi Hj Nij. destruct (nonces_fresh_from_spec _ _ H) as (F & D & _).
+  rewrite Forall_forall in F.
+  repeat split.
+  - apply F. eapply nth_error_In; eassumption.
+  - apply F. eapply nth_error_In; eassumption.
+  - intros E. subst nj. apply Nij.
+    apply (proj1 (NoDup_nth_error ns) D).
+    + apply nth_error_Some. rewrite Hi. discriminate.
+    + rewrite Hi, Hj. reflexivity.
+Qed.
+
+Section Replay.
+  Variable mac : bytes -> bytes -> bytes.
+  Hypothesis mac_inj : forall k m m', mac k m = mac k m' -> m = m'.
+
+  (** a reply made for another nonce of the same length is refused, whatever records it is
+      presented with *)
+  Lemma other_nonce_refused s n m rs rs' :
+    length m = length n -> m <> n -> check_hmac mac s n rs' (shared_tag mac s m rs) = false.
+  Proof.
+    intros L N. destruct (check_hmac mac s n rs' (shared_tag mac s m rs)) eqn:E; [|reflexivity].
+    exfalso. apply N. unfold check_hmac in E. apply bytes_beq_eq in E.
+    eapply (fresh_nonce mac mac_inj); eassumption.
+  Qed.
+
+  (** [reads]: in order, the nonce each read sent and the records the server answered with.
+      If the nonces are fresh, the reply to read [i] is refused as an answer to any other read
+      [j], whatever records accompany it. *)
+  Lemma replay_refused s (reads : list (bytes * list record)) i j ni rsi nj rsj rs' :
+    nonces_fresh (map fst reads) = true ->
+    nth_error reads i = Some (ni, rsi) -> nth_error reads j = Some (nj, rsj) -> i <> j ->
+    check_hmac mac s nj rs' (shared_tag mac s ni rsi) = false.
+  Proof.
+    intros F Hi Hj Nij.
+    destruct (nonces_fresh_distinct (map fst reads) i j ni nj F) as (Li & Lj & N); trivial.
+    - rewrite nth_error_map, Hi. reflexivity.
+    - rewrite nth_error_map, Hj. reflexivity.
+    - apply other_nonce_refused; [congruence | exact N].
+  Qed.
+End Replay.
+
+(** without freshness the premise cannot be dropped: a repeated nonce makes the earlier reply,
+    with the earlier (stale) records, acceptable again — for every MAC *)
+Lemma stale_reply_accepted_on_repeated_nonce mac s n rs_old :
+  check_hmac mac s n rs_old (shared_tag mac s n rs_old) = true.
+Proof. unfold check_hmac. apply bytes_beq_refl. Qed.
+
 (** an injective MAC exists (the hypotheses of the section are satisfiable) *)
 Definition toy_mac (k m : bytes) : bytes := m.
 Lemma toy_mac_inj : forall k m m', toy_mac k m = toy_mac k m' -> m = m'.
